@@ -275,6 +275,7 @@ def main():
     rep_file.parent.mkdir(exist_ok=True)
     with BuildLock():
         report = extract.run(report_file=None)
+        subprocess.run([sys.executable, str(VERIF / "tools" / "gen_lean_index.py")], capture_output=True)
     stale = {k: v for k, v in report["sites"].items() if v["status"] != "ok" and prop in v["props"]}
     changed = {k: v for k, v in report["sites"].items() if v.get("differs_from_baseline") and prop in v["props"]}
 
